@@ -209,15 +209,24 @@ func c03SecondsUnit(r *Run) {
 		}
 		for _, b := range fn.Blocks {
 			for _, in := range b.Instrs {
-				cv, ok := in.(*ssa.Convert)
-				if !ok || typeName(cv.Type()) != "time.Duration" {
+				var cv ssa.Value
+				var cvX ssa.Value
+				switch x := in.(type) {
+				case *ssa.Convert:
+					cv, cvX = x, x.X
+				case *ssa.ChangeType:
+					cv, cvX = x, x.X
+				default:
 					continue
 				}
-				_, p := accessPath(cv.X)
+				if typeName(cv.Type()) != "time.Duration" {
+					continue
+				}
+				_, p := accessPath(cvX)
 				src := ""
 				if len(p) > 0 && strings.HasSuffix(p[len(p)-1], "Seconds") {
 					src = p[len(p)-1]
-				} else if pr, isP := cv.X.(*ssa.Parameter); isP && strings.HasSuffix(strings.ToLower(pr.Name()), "seconds") {
+				} else if pr, isP := cvX.(*ssa.Parameter); isP && strings.HasSuffix(strings.ToLower(pr.Name()), "seconds") {
 					src = pr.Name()
 				}
 				if src == "" {
@@ -231,7 +240,7 @@ func c03SecondsUnit(r *Run) {
 						continue
 					}
 					other := bo.Y
-					if other == ssa.Value(cv) {
+					if other == cv {
 						other = bo.X
 					}
 					c, isC := other.(*ssa.Const)
@@ -352,4 +361,34 @@ func c04LabelLoopExits(r *Run) {
 			}
 		}
 	}
+}
+
+// ---- more imports added after the second round of seeded changes -------------------------------
+
+func c13Imports(r *Run) {
+	r.Floor("C13.R5", 6)
+	r.Floor("C13.R6", 2)
+	r.ImportFrom(runC10, map[string]string{"C10.R1": "C13.R5"}, map[string]string{
+		"C13.R5": "the hash stamped on every created pod is the replica set's TemplateGeneration, written unconditionally by the pod constructor (hash triple replica-set annotation / templateGeneration / pod annotation)"})
+	r.ImportFrom(runC12, map[string]string{"C12.R2": "C13.R6"}, map[string]string{
+		"C13.R6": "the replica sets considered for creation and clean-up are the owner's own (namespace- and name-label-scoped list): a foreign replica set is never collected, an own one never missed"})
+}
+
+func c15Imports(r *Run) {
+	r.Floor("C15.R10", 8)
+	r.Floor("C15.R11", 2)
+	r.ImportFrom(runC01, map[string]string{"C01.R7": "C15.R10"}, map[string]string{
+		"C15.R10": "the eligibility test applied to canary candidates (CheckNodeFitness) requires node selector, required affinity and NoSchedule/NoExecute taints"})
+	r.ImportFrom(runC12, map[string]string{"C12.R2": "C15.R11"}, map[string]string{
+		"C15.R11": "the pods whose restarts order the candidates are the ExtendedDaemonSet's own (namespace- and name-label-scoped list)"})
+}
+
+func c17Imports(r *Run) {
+	r.Floor("C17.R4", 6)
+	r.ImportFrom(runC10, map[string]string{"C10.R1": "C17.R4"}, map[string]string{
+		"C17.R4": "parallel pod creations share no template memory: the pod constructor works on a DeepCopy of the replica set's template"})
+}
+
+func c11MoreImports(r *Run) {
+	r.ImportFrom(runC07, map[string]string{"C07.R5": "C11.R6"}, nil)
 }
